@@ -243,6 +243,14 @@ def rule_composition(chk: Check, model, rid: str, cv: CompiledView):
     # the default is the graph's own max_steps property (the evaluator may show it by name or by value)
     prop = SymEval(model).run_function(model.func("graph.Graph.max_steps")).ret
     n_steps_v = T.mk_ite(T.eq(S("max_steps"), T.NONE, numeric=False), prop, S("max_steps"))
+    # ... which is one less than the number of partitions in the schedule: the step taken by init()/reset() is the first one, and a run
+    # past the last partition is clipped back onto it (it would redo the last partition and overwrite that step's output and record)
+    f_ms = model.func("graph.Graph.max_steps")
+    chk.used(f_ms.qualname)
+    d = T.add(prop, T.ONE)
+    okd = d[0] in ("index", "call", "attr") and mentions(d, "timings") is not None
+    chk.add(rid, "rollout:default length stays inside the horizon", okd, f"Graph.max_steps = {T.show(prop)[:100]}, expected <number of partitions> - 1 "
+            "(one more run() re-executes the last partition under a clipped step)", chk.loc(f_ms))
     init = None
     for kind, nm in (("fori", "jax.lax.fori_loop"), ("scan", "jax.lax.scan")):
         calls = [e for e in r.events if e.kind == "call" and e.name == nm]
